@@ -76,9 +76,10 @@ def ENUM(path):
     return Spec("enum", path)
 
 
-def NEW(cls, *args):
-    """an instance obtained by running the class's real constructor on arguments made from specs"""
-    return Spec("new", cls, *args)
+def NEW(cls, *args, **overrides):
+    """an instance obtained by running the class's real constructor on arguments made from specs; keyword
+    specs then overwrite fields (e.g. a flag the constructor initialises but requests may have changed)"""
+    return Spec("new", cls, *args, **overrides)
 
 
 def PYLIST(*elems):
@@ -323,7 +324,16 @@ class Verifier:
                 for s2, o in self.ip.instantiate(s1, cls, acc, {}):
                     if isinstance(o, Raise):
                         raise Unsupported("constructor of %s raised while building a pre-state" % cls.name)
-                    yield s2, o
+                    cur2 = [s2]
+                    for k, sp in spec.kw.items():
+                        nxt2 = []
+                        for s3 in cur2:
+                            for s4, v in self.make(s3, sp, "%s.%s" % (name, k)):
+                                s4.fields(o, True)[k] = v
+                                nxt2.append(s4)
+                        cur2 = nxt2
+                    for s3 in cur2:
+                        yield s3, o
         elif tag == "oneof":
             alts = list(spec.a)
             for k, alt in enumerate(alts):
@@ -368,6 +378,17 @@ class Verifier:
         for name, spec in self.ghost_schema.items():
             (s, v), = list(self.make(st, spec, "%s.%s" % (prefix, name)))
             st.ghost[name] = v
+
+    def old_view(self, st, env):
+        """entry-state view of the arguments: JSON values lose their (mutable) overlay, i.e. `old.request`
+        is the request as received"""
+        out = {}
+        for k, v in env.items():
+            if isinstance(v, JVal) and v.oid is not None and not st.cell(v.oid):
+                out[k] = JVal(v.term, None)
+            else:
+                out[k] = v
+        return out
 
     def ghost_view(self, st):
         return Opaque("ghost", dict(st.ghost))
@@ -495,7 +516,7 @@ class Verifier:
         outcomes = []
         for st, env in states:
             st.frames[-1].locals.update(env)
-            old = Opaque("old", dict(env, g=self.ghost_view(st)))
+            old = Opaque("old", dict(self.old_view(st, env), g=self.ghost_view(st)))
             st.old = old
             spec_env = dict(env, g=self.ghost_view(st), old=old)
             ok = True
@@ -528,6 +549,13 @@ class Verifier:
             for e in getattr(cls, "at_exit", ()):
                 envx = dict(st.frames[-1].locals, result=result, g=self.ghost_view(st), old=old)
                 self.emit(st, "post", "at-exit." + e.__name__, self.eval_clause(st, e, envx))
+            # clauses that must hold on every return reached while a given local is still unbound
+            # (e.g. "no device exchange on any return that precedes the dispatch")
+            for nm, e in getattr(cls, "at_exit_if_unbound", ()):
+                if nm not in st.frames[-1].locals:
+                    envx = dict(st.frames[-1].locals, result=result, g=self.ghost_view(st), old=old)
+                    self.emit(st, "post", "at-exit-before-%s.%s" % (nm, e.__name__), self.eval_clause(st, e, envx),
+                              serves=getattr(e, "_serves", None))
             st.trace.append("return")
             return
         if out[0] == "raise":
@@ -610,7 +638,7 @@ class Verifier:
         for pn, pv in list(bound.items()):
             if isinstance(pv, JVal) and pn in cls.params:
                 bound[pn] = self.coerce(st, pv, cls.params[pn], "%s.%s" % (cls.qualname, pn))
-        old = Opaque("old", dict(bound, g=self.ghost_view(st)))
+        old = Opaque("old", dict(self.old_view(st, bound), g=self.ghost_view(st)))
         spec_env = dict(bound, g=self.ghost_view(st), old=old)
         # precondition: obligation at the call site, then assumed
         caller = self.cur
@@ -1271,3 +1299,21 @@ class RecSpec:
         xs = [to_term(L.int_of(a)) for a in args[:-1]]
         k = to_term(L.int_of(args[-1]))
         return wrap_sort(self.term(st, xs, k))
+
+
+@spec_builtin("is_int")
+def _is_int(ip, st, v):
+    import enum as _enum
+    return kind_of(v) == "int" and not isinstance(v, bool)
+
+
+@spec_builtin("jeq_str")
+def _jeq_str(ip, st, j, s):
+    """Python's  j == <str>  for a JSON value"""
+    return as_value("bool", tm.And(tm.Eq(V.j_tag(j.term), tm.Int(V.TAG_STR)), tm.Eq(V.j_sval(j.term), to_term(s))))
+
+
+@spec_builtin("jeq_int")
+def _jeq_int(ip, st, j, n):
+    """Python's  j == <int>  for a JSON value (True == 1 and 5.0 == 5 hold in Python)"""
+    return L.eq_total(ip, st, j, n)
